@@ -313,6 +313,8 @@ func (p *Parser) parseTaxa() (int64, map[string]bool, error) {
 				stoptaxa = true
 			}
 
+		case ENDOFCOMMAND:
+			// Empty command: nothing to skip
 		default:
 			err = p.parseUnsupportedCommand()
 			aio.PrintMessage(fmt.Sprintf("unsupported command %q in block TAXA, skipping", lit))
@@ -543,6 +545,8 @@ func (p *Parser) parseData() (names []string, sequences map[string]string, nchar
 			if tok, lit, err = p.consumeComment(tok, lit); err != nil {
 				stopdata = true
 			}
+		case ENDOFCOMMAND:
+			// Empty command: nothing to skip
 		default:
 			err = p.parseUnsupportedCommand()
 			aio.PrintMessage(fmt.Sprintf("unsupported command %q in block DATA, skipping", lit))
